@@ -62,6 +62,8 @@ func genHistory(t *rapid.T, k HistKnobs) *Script {
 			}
 			if rapid.IntRange(0, 9).Draw(t, "damaged") == 0 {
 				m = damage(t, m)
+			} else if rapid.IntRange(0, 19).Draw(t, "seqText") == 0 {
+				m.Seq = rapid.SampledFrom([]string{"abc", "1x", "0x10"}).Draw(t, "seqTextVal") // unparsable MsgSeqNum
 			}
 			if k.NoGoodLogon {
 				if v, _ := LogonVerdict(&cfg, m); v == "ok" || cfg.Role == "initiator" {
